@@ -1647,7 +1647,8 @@ static int parse_loop_packets(struct scanner_s *scanner, cif_loop_tp *loop, stri
                             value = packet_values[column_index];  /* it is safe to re-use the existing value object */
 
                             /* parse the value */
-                            if ((result = parse_value(scanner, &value)) == CIF_OK) {
+                            if (((result = parse_value(scanner, &value)) == CIF_OK) && (scanner->skip_depth <= 0)) {
+                                /* the item is reported only if it is not among the entities being skipped */
                                 result = OPTIONAL_CALL(scanner->handler->handle_item,
                                         (name, value, scanner->user_data), CIF_OK);
                                 switch (result) {
